@@ -169,6 +169,21 @@ func c05Moment(w *W, st ref.Stamp, class string) {
 	idx("dayExact", l.GetDayGanIndexExact(), l.GetDayZhiIndexExact(), l.GetDayGanExact(), l.GetDayZhiExact(), rp.day[1])
 	idx("dayExact2", l.GetDayGanIndexExact2(), l.GetDayZhiIndexExact2(), l.GetDayGanExact2(), l.GetDayZhiExact2(), rp.day[2])
 	idx("time", l.GetTimeGanIndex(), l.GetTimeZhiIndex(), l.GetTimeGan(), l.GetTimeZhi(), rp.hour)
+	// the same moment built from the lunar side must carry the same pillars (leap months, months 11-12-1 and Jie days always)
+	if lm := l.GetMonth(); lm < 0 || lm >= 11 || lm == 1 || rp.nearJie || rp.lead {
+		var l2 *calendar.Lunar
+		if pv := Call(func() { l2 = calendar.NewLunar(l.GetYear(), lm, l.GetDay(), st.H, st.Mi, st.S) }); pv != nil {
+			w.Violatef("lunar-route", key, "NewLunar(%d,%d,%d,..) for %s panicked: %v", l.GetYear(), lm, l.GetDay(), key, pv)
+		} else {
+			a := []string{l.GetYearInGanZhi(), l.GetYearInGanZhiByLiChun(), l.GetYearInGanZhiExact(), l.GetMonthInGanZhi(), l.GetMonthInGanZhiExact(), l.GetDayInGanZhi(), l.GetDayInGanZhiExact(), l.GetDayInGanZhiExact2(), l.GetTimeInGanZhi()}
+			b := []string{l2.GetYearInGanZhi(), l2.GetYearInGanZhiByLiChun(), l2.GetYearInGanZhiExact(), l2.GetMonthInGanZhi(), l2.GetMonthInGanZhiExact(), l2.GetDayInGanZhi(), l2.GetDayInGanZhiExact(), l2.GetDayInGanZhiExact2(), l2.GetTimeInGanZhi()}
+			if fmt.Sprint(a) != fmt.Sprint(b) {
+				w.Violatef("lunar-route", key, "pillars at %s: from the civil date %v, from NewLunar(%d,%d,%d,..) %v", key, a, l.GetYear(), lm, l.GetDay(), b)
+			}
+			w.Eval(1)
+			w.Count("lunar-side-constructions", 1)
+		}
+	}
 	// the hour object(s) of the same moment (and, at 23:xx / every 4th moment, the day's 13 hour objects)
 	if st.H == 23 || st.H == 0 || (st.Mi+st.S+st.D)%4 == 0 {
 		lt := l.GetTime()
